@@ -37,7 +37,9 @@ ENTRIES = [L + "LossODE.evaluate", L + "LossODE.__call__", L + "SystemLossODE.ev
            PD + "LossPDENonStatio.__call__", PD + "SystemLossPDE.evaluate", PD + "SystemLossPDE.__call__",
            D + "DataGeneratorODE.get_batch", D + "CubicMeshPDEStatio.get_batch", D + "CubicMeshPDENonStatio.get_batch",
            D + "DataGeneratorObservations.get_batch", D + "DataGeneratorParameter.get_batch",
-           D + "DataGeneratorObservationsMultiPINNs.get_batch"]
+           D + "DataGeneratorObservationsMultiPINNs.get_batch",
+           # assembling a drawn batch (used by solve's get_batch and by the validation module) is part of drawing it
+           D + "append_param_batch", D + "append_obs_batch", D + "make_cartesian_product"]
 
 
 @functools.lru_cache(maxsize=1)
@@ -58,6 +60,12 @@ def frame_ob(q):
         if f.findings:
             ln, what, txt = f.findings[0]
             wit = native_witness_for(q, seed)
+            if "module-level state" in what and not wit and all("module-level state" in w for _, w, _ in f.findings):
+                # a cache keyed by everything the result depends on keeps the property: without a call history that
+                # changes a result this is not a violation, only something the frame analysis cannot decide
+                return dict(status="undecided", backend="frame",
+                            detail=f"{f.path}:{ln}: {what}: `{txt}` — results may depend on the call history; no history that "
+                                   f"changes a result was found natively")
             return dict(status="violated", failure="frame", backend="frame",
                         detail=f"{f.path}:{ln}: {what} through an argument-owned object: `{txt}`" +
                                (f" (+{len(f.findings) - 1} more)" if len(f.findings) > 1 else ""),
@@ -139,12 +147,88 @@ def native_loss_witness(seed, only=None):
     return bad, n
 
 
+def native_assembly_witness():
+    """append_param_batch / append_obs_batch on a batch that already carries such a part: the batch given is unchanged"""
+    from jinns.data._DataGenerators import append_param_batch, append_obs_batch
+    from jinns.data._Batchs import ODEBatch
+    bad = []
+    b1 = ODEBatch(temporal_batch=jnp.arange(3.0), param_batch_dict={"a": jnp.ones((3, 1))},
+                  obs_batch_dict={"pinn_in": jnp.zeros((3, 1)), "val": jnp.zeros((3, 1)), "eq_params": {}})
+    for fn_, part in ((append_param_batch, {"b": 2.0 * jnp.ones((3, 1))}),
+                      (append_obs_batch, {"pinn_in": jnp.ones((3, 1)), "val": jnp.ones((3, 1)), "eq_params": {"a": jnp.ones((3, 1))}})):
+        before = (snap(b1), snap(part))
+        fn_(b1, part)
+        if (snap(b1), snap(part)) != before:
+            bad.append(f"{fn_.__name__} modified the batch (or the part) it was given: a batch that already had such a part is written through")
+    return bad
+
+
+_ORDER_SCRIPT = r"""
+import sys, json
+import jax, jax.numpy as jnp, equinox as eqx
+from jinns.loss import LossODE, ODE
+from jinns.data._Batchs import ODEBatch
+from jinns.parameters import Params
+class Dyn(ODE):
+    def equation(self, t, u, params):
+        return u(t, params) * params.eq_params["a"] + params.eq_params["b"] * t
+from jinns.utils._pinn import PINN
+class M(eqx.Module):
+    w: jax.Array
+    def __call__(self, x):
+        return jnp.sin(jnp.sum(self.w * x))[None]
+import warnings; warnings.simplefilter("ignore")
+u = PINN(mlp=M(jnp.ones(1)), slice_solution=jnp.s_[0:1], eq_type="ODE", input_transform=lambda i, p: i,
+         output_transform=lambda i, o, p: o * jnp.sum(p.eq_params["a"]) + jnp.sum(p.eq_params["b"]))
+params = Params(nn_params=u.params, eq_params={"a": jnp.array(0.5), "b": jnp.array(1.5)})
+loss = LossODE(u=u, dynamic_loss=Dyn(), params=params)
+t = jnp.linspace(0.1, 0.9, 4)
+col = lambda s: (s + jnp.arange(4.0))[:, None]
+batches = {"a": ODEBatch(temporal_batch=t, param_batch_dict={"a": col(0.2)}),
+           "ab": ODEBatch(temporal_batch=t, param_batch_dict={"a": col(0.2), "b": col(0.7)}),
+           "b": ODEBatch(temporal_batch=t, param_batch_dict={"b": col(0.7)})}
+out = []
+for nm in sys.argv[1].split(","):
+    try:
+        out.append(float(loss.evaluate(params, batches[nm])[0]))
+    except Exception as e:
+        out.append("raises " + type(e).__name__)
+print(json.dumps(out))
+"""
+
+
+def native_order_witness():
+    """the value of an evaluation does not depend on what was evaluated before in the same process (fresh interpreters)"""
+    import subprocess, sys, json, os
+    env = dict(os.environ, JAX_PLATFORMS="cpu", PYTHONPATH="/repo")
+    def run(order):
+        r = subprocess.run([sys.executable, "-W", "ignore", "-c", _ORDER_SCRIPT, order], capture_output=True, text=True, env=env, timeout=300)
+        return json.loads(r.stdout.strip().splitlines()[-1])
+    try:
+        alone = {nm: run(nm)[0] for nm in ("a", "ab", "b")}
+        for order in ("a,ab", "ab,a", "b,ab", "ab,b", "a,b"):
+            vals = run(order)
+            for nm, v in zip(order.split(","), vals):
+                if v != alone[nm] and not (isinstance(v, float) and isinstance(alone[nm], float) and abs(v - alone[nm]) <= 1e-9 * max(1.0, abs(v))):
+                    return [f"LossODE.evaluate on a batch with parameter keys {{{nm}}} gives {v} after the evaluations [{order}] and "
+                            f"{alone[nm]} in a fresh interpreter: the result depends on the call history"]
+    except Exception:
+        return None
+    return None
+
+
 def native_witness_for(q, seed):
     try:
+        if "append_" in q or "make_cartesian_product" in q:
+            return native_assembly_witness()[:3] or None
+        fc, _ = _analysis()
+        f = fc.funcs.get(q)
+        if f is not None and any("module-level state" in w for _, w, _ in f.findings):
+            return native_order_witness()
         bad, _ = native_loss_witness(seed)
-        return bad[:3]
-    except Exception as e:
-        return [f"native witness run failed: {e!r}"]
+        return bad[:3] or None
+    except Exception:
+        return None
 
 
 def native_ob():
@@ -152,6 +236,7 @@ def native_ob():
         bad, n = native_loss_witness(seed)
         gb, gn = native_generator_witness(seed)
         bad += gb
+        bad += native_assembly_witness()
         if bad:
             return dict(status="violated", failure="native-frame", backend="native", bounded=True, detail=bad[0],
                         replay=dict(native_disagrees=True, native=bad[:5], expected="arguments unchanged; same result in every mode"))
